@@ -989,56 +989,120 @@ def clause_negotiated_per_connection(R, prefix, fields):
 REASON = "reason_codes::ReasonCode"
 
 
-def clause_reason_predicates(R, prefix):
-    """Every acknowledgement handler decides "accepted / refused" with ReasonCode::success / failed / as_result.  MQTT 5
-    (2.4): a reason code below 0x80 is a success, 0x80 and above a failure.  `success` is tabulated over every variant of
-    the enum (its discriminant is the wire value): the comparison it makes must be true exactly for the variants below
-    0x80; `failed` is its negation; `as_result` is Ok exactly on the success edge."""
-    from ..core import peel as _peel, show as _show
-    f = R.f
-    sb = method(f, REASON, "success")
-    R.touch(sb)
-    t = _peel(sb.local_term(0))
+def _reason_pred_eval(f, body, depth=0):
+    """For a `fn(&self) -> bool` of ReasonCode whose result is a comparison of the code's wire value with constants
+    (`<`, `<=`, `>=`, .., `!`, a range `contains`, another such predicate): a function discriminant -> bool; None when
+    the shape is not understood."""
+    from ..core import peel as _peel, is_call as _is_call
     ops = {"Lt": lambda a, b: a < b, "Le": lambda a, b: a <= b, "Gt": lambda a, b: a > b, "Ge": lambda a, b: a >= b,
            "Eq": lambda a, b: a == b, "Ne": lambda a, b: a != b}
-    neg = False
-    if t[0] == "un" and t[1] == "Not":
-        t, neg = _peel(t[2]), True
-    table_ok, why = False, "not a comparison of the code's wire value with a constant (%s)" % _show(t)[:80]
-    if t[0] == "bin" and t[1] in ops:
-        a, b = _peel(t[2]), _peel(t[3])
-        cst, val, flip = None, None, False
-        if b[0] == "const" and isinstance(b[2], int):
-            cst, val = b[2], a
-        elif a[0] == "const" and isinstance(a[2], int):
-            cst, val, flip = a[2], b, True
-        rooted = val is not None and chain(val, extra=("Into::into", "into", "From::from", "from", "Clone::clone", "clone"))[0] == ("param", "self")
-        if cst is not None and rooted:
-            bad = []
-            for v in f.adts[REASON]["variants"]:
-                d = v["discr"]
-                got = ops[t[1]](cst, d) if flip else ops[t[1]](d, cst)
-                got = (not got) if neg else got
-                if got != (d < 0x80):
-                    bad.append("%s (0x%02x)" % (v["name"], d))
-            table_ok = not bad
-            why = "" if not bad else "misclassified: %s" % ", ".join(bad[:4])
-    R.ob("%s/success-table" % prefix, table_ok,
-         "ReasonCode::success is true exactly for the codes below 0x80 (tabulated over all %d variants)%s"
-         % (len(f.adts[REASON]["variants"]), "" if table_ok else " — " + why), where=sb.span)
+    ex = ("Into::into", "into", "From::from", "from", "Clone::clone", "clone")
+
+    def wire(t):
+        t = _peel(t)
+        if chain(t, extra=ex)[0] == ("param", "self") and not [k for k in chain(t, extra=ex)[1] if not k.startswith("@")]:
+            return True
+        # a private accessor returning the wire value (`self.wire_value()`)
+        if t[0] == "call" and t[2] in f.bodies and depth < 3:
+            hb = f.bodies[t[2]]
+            return hb.arg_count == 1 and wire(hb.local_term(0))
+        return False
+
+    def cval(t):
+        t = _peel(t)
+        return t[2] if t[0] == "const" and isinstance(t[2], int) else None
+
+    def ev(t, d_):
+        t = _peel(t)
+        if t[0] == "un" and t[1] == "Not":
+            fn = ev(t[2], d_ + 1)
+            return None if fn is None else (lambda d, fn=fn: not fn(d))
+        if t[0] == "bin" and t[1] in ops:
+            a, b = t[2], t[3]
+            if wire(a) and cval(b) is not None:
+                return lambda d, o=ops[t[1]], c=cval(b): o(d, c)
+            if wire(b) and cval(a) is not None:
+                return lambda d, o=ops[t[1]], c=cval(a): o(c, d)
+            return None
+        if _is_call(t, "contains") and len(t[3]) == 2 and wire(t[3][1]):
+            rg = _peel(t[3][0])
+            if rg[0] == "agg" and rg[4] == ["start", "end"] and cval(rg[5][0]) is not None and cval(rg[5][1]) is not None:
+                incl = "Inclusive" in (rg[2] or "")
+                lo, hi = cval(rg[5][0]), cval(rg[5][1])
+                return (lambda d: lo <= d <= hi) if incl else (lambda d: lo <= d < hi)
+            if _is_call(rg, "RangeInclusive::<Idx>::new", "new") and len(rg[3]) == 2 and cval(rg[3][0]) is not None and cval(rg[3][1]) is not None:
+                lo, hi = cval(rg[3][0]), cval(rg[3][1])
+                return lambda d: lo <= d <= hi
+            return None
+        if t[0] == "call" and t[2] in f.bodies and d_ < 3 and f.bodies[t[2]].self_ty and f.bodies[t[2]].self_ty.startswith(REASON) \
+                and t[3] and chain(t[3][0])[0] == ("param", "self"):
+            return _reason_pred_eval(f, f.bodies[t[2]], d_ + 1)
+        return None
+    return ev(body.local_term(0), depth)
+
+
+def clause_reason_predicates(R, prefix):
+    """Every acknowledgement handler decides "accepted / refused" with ReasonCode::success / failed / as_result.  MQTT 5
+    (2.4): a reason code below 0x80 is a success, 0x80 and above a failure.  The predicates are tabulated over every
+    variant of the enum (its discriminant is the wire value): `success` must be true exactly below 0x80, `failed` exactly
+    from 0x80 on, and `as_result` is Ok exactly on the edge of its test that means success."""
+    from ..core import peel as _peel, show as _show
+    f = R.f
+    variants = f.adts[REASON]["variants"]
+    sb = method(f, REASON, "success")
     fb = method(f, REASON, "failed")
-    ft = _peel(fb.local_term(0))
-    okf = ft[0] == "un" and ft[1] == "Not" and _peel(ft[2])[0] == "call" and _peel(ft[2])[2] == sb.name
-    R.ob("%s/failed-is-not-success" % prefix, okf, "ReasonCode::failed is !success (found %s)" % _show(ft)[:80], where=fb.span)
+    R.touch(sb)
+    tabs = {}
+    for nm, b, want in (("success", sb, lambda d: d < 0x80), ("failed", fb, lambda d: d >= 0x80)):
+        fn = _reason_pred_eval(f, b)
+        ok, why = fn is not None, "not a comparison of the code's wire value with constants (%s)" % _show(_peel(b.local_term(0)))[:80]
+        if fn is not None:
+            bad = ["%s (0x%02x)" % (v["name"], v["discr"]) for v in variants if bool(fn(v["discr"])) != want(v["discr"])]
+            ok, why = not bad, "misclassified: %s" % ", ".join(bad[:4])
+        tabs[nm] = fn
+        key = "%s/success-table" % prefix if nm == "success" else "%s/failed-is-not-success" % prefix
+        R.ob(key, ok,
+             "ReasonCode::%s is true exactly for the codes %s 0x80 (tabulated over all %d variants)%s"
+             % (nm, "below" if nm == "success" else "from", len(variants), "" if ok else " — " + why), where=b.span)
     ab = method(f, REASON, "as_result")
     oka = False
     for bb in ab.switches:
         si = ab.switch_info(bb)
         sj = _peel(si["subject"])
-        if sj[0] == "call" and sj[2] == sb.name and si["edges"].get(True) is not None and si["edges"].get(False) is not None:
+        neg = False
+        if sj[0] == "un" and sj[1] == "Not":
+            sj, neg = _peel(sj[2]), True
+        if sj[0] == "call" and sj[2] in (sb.name, fb.name) and si["edges"].get(True) is not None and si["edges"].get(False) is not None:
+            means_success = (sj[2] == sb.name) != neg          # the True edge means "success"
             def vals(start, avoid):
                 return [ab.rvalue_term(s["rv"]) for x in ab.reach([start], avoid=[avoid]) for s in ab.blocks[x]["stmts"]
                         if s["k"] == "assign" and s["dst"]["l"] == 0 and not s["dst"]["proj"] and "agg" in s["rv"]]
             tv, fv = vals(si["edges"][True], si["edges"][False]), vals(si["edges"][False], si["edges"][True])
-            oka = bool(tv) and bool(fv) and all(v[3] == "Ok" for v in tv) and all(v[3] == "Err" for v in fv)
+            sv, ev_ = (tv, fv) if means_success else (fv, tv)
+            oka = bool(sv) and bool(ev_) and all(v[3] == "Ok" for v in sv) and all(v[3] == "Err" for v in ev_)
     R.ob("%s/as_result" % prefix, oka, "ReasonCode::as_result is Ok exactly when success() holds", where=ab.span)
+
+
+def reason_accepted_edges(f, code, packet="ConnAck"):
+    """edges of `code` on which the reason code of the received <packet> was found to be a success: the Ok edge of a
+    switch on `reason.as_result()` (the `?`), the false edge of `reason.failed()`, the true edge of `reason.success()`"""
+    from ..core import peel as _peel, is_call as _is_call, phi_alts as _phi_alts
+    out = []
+    for bb in code.switches:
+        if bb not in code.reachable:
+            continue
+        si = code.switch_info(bb)
+        for alt in _phi_alts(si["subject"]):
+            a = _peel(alt)
+            neg = False
+            if a[0] == "un" and a[1] == "Not":
+                a, neg = _peel(a[2]), True
+            if not (isinstance(a, tuple) and a[0] == "call") or not any(y[0] == "downcast" and y[2] == packet for y in walk(a)):
+                continue
+            if _is_call(a, "ReasonCode::as_result") and si["edges"].get("Ok") is not None:
+                out.append((bb, si["edges"]["Ok"]))
+            elif _is_call(a, "ReasonCode::failed") and si["edges"].get(neg) is not None:
+                out.append((bb, si["edges"][neg]))
+            elif _is_call(a, "ReasonCode::success") and si["edges"].get(not neg) is not None:
+                out.append((bb, si["edges"][not neg]))
+    return out
